@@ -91,10 +91,17 @@ def r1(ctx):
     ef = P.func(MAT + "._evaluate_factor")
     from ..util import guards_of
     raises = [n for n in ast.walk(ef.node) if isinstance(n, ast.Raise) and n.exc is not None and "FactorEncodingError" in norm(n.exc)
-              and any("spec.encoder_state" in c for c, _ in guards_of(P, n))]
+              and any("encoder_state" in c for c, _ in guards_of(P, n))]
     ctx.floor("C09.R1", len(raises), 1, "kind guards")
     g = raises[0]
-    gs = [(c, pol) for c, pol in guards_of(P, g) if "encoder_state" in c]
+    from ..util import single_assignment_env
+    env1 = {k: v for k, v in single_assignment_env(ef.node).items()}
+
+    def unfold(text):
+        e = sym.subst(ast.parse(text, mode="eval").body, env1)
+        return norm(e)
+    gs = [(unfold(c), pol) for c, pol in guards_of(P, g)]
+    gs = [(c, pol) for c, pol in gs if "encoder_state" in c]
     want = {("factor.expr in spec.encoder_state", True), ("value.__formulaic_metadata__.kind is spec.encoder_state[factor.expr][0]", False)}
     ok = set(gs) == want
     ctx.check(ok, "C09.R1", "the kind guard compares the evaluated kind with the recorded one and raises FactorEncodingError", ef.module.line(g),
@@ -178,12 +185,23 @@ def r2(ctx):
     cols_p = param_names(f.node)[1]
     head, tgt = lp._sym_head, lp._sym_orig.target
     SC = TC = CS = None
+    YIELD = None
+
+    def parts(e):
+        """(first, second, third) component expressions of a generated-column entry: indexed or tuple-unpacked"""
+        if isinstance(e, ast.Name):
+            return f"{e.id}[0]", f"{e.id}[1]", f"{e.id}[2]"
+        if isinstance(e, ast.Tuple) and len(e.elts) == 3 and all(isinstance(x, ast.Name) for x in e.elts):
+            return tuple(x.id for x in e.elts)
+        return None
+
     if isinstance(tgt, ast.Tuple) and len(tgt.elts) == 2:
-        a_, b_ = norm(tgt.elts[0]), norm(tgt.elts[1])
-        if sym.pm(f"enumerate({cols_p})", head) is not None:
-            CS, SC, TC = b_, f"{b_}[2]", f"spec.structure[{a_}][2]"
-        elif sym.pm(f"zip({cols_p}, spec.structure)", head) is not None:
-            CS, SC, TC = a_, f"{a_}[2]", f"{b_}[2]"
+        if sym.pm(f"enumerate({cols_p})", head) is not None and isinstance(tgt.elts[0], ast.Name) and parts(tgt.elts[1]):
+            c0, c1, c2 = parts(tgt.elts[1])
+            CS, SC, TC, YIELD = norm(tgt.elts[1]), c2, f"spec.structure[{tgt.elts[0].id}][2]", (c0, c1)
+        elif sym.pm(f"zip({cols_p}, spec.structure)", head) is not None and parts(tgt.elts[0]) and parts(tgt.elts[1]):
+            c0, c1, c2 = parts(tgt.elts[0])
+            CS, SC, TC, YIELD = norm(tgt.elts[0]), c2, parts(tgt.elts[1])[2], (c0, c1)
     line = f.module.line(lp._sym_orig)
     ctx.check(SC is not None, "C09.R2", "generated columns are compared with the recorded columns of the same term", line,
               ctx.construct(f, text="pairing"), f"the loop must pair the i-th generated term with the i-th recorded term; it iterates `{norm(head)}`")
@@ -219,9 +237,9 @@ def r2(ctx):
     ctx.check(all_raise(mism), "C09.R2", "a name-set mismatch raises FactorEncodingError", line, ctx.construct(f, text="mismatch"),
               f"expected FactorEncodingError when as many columns were generated but their names differ; found {[k for k, *_ in mism]}")
     good = yields(it(False, False, eq=True)) + yields(few0) + yields(few1)
-    ok = bool(good) and all(sym.pm(f"({CS}[0], {CS}[1], {{VAR_c: ANY_src[VAR_c] for VAR_c in {TC}}})", o.value) is not None for o in good)
+    ok = bool(good) and all(sym.pm(f"({YIELD[0]}, {YIELD[1]}, {{VAR_c: ANY_src[VAR_c] for VAR_c in {TC}}})", o.value) is not None for o in good)
     ctx.check(ok, "C09.R2", "the yielded columns are keyed by the recorded names in the recorded order", line, ctx.construct(f, text="yield"),
-              f"yields {[norm(o.value)[:120] for o in good]}; expected ({CS}[0], {CS}[1], {{name: <columns>[name] for name in {TC}}})")
+              f"yields {[norm(o.value)[:120] for o in good]}; expected ({YIELD[0]}, {YIELD[1]}, {{name: <columns>[name] for name in {TC}}})")
     pre = [o for o in outs if not o.loops and o.kind == "raise" and any((not pol) and norm(c) == f"len({cols_p}) == len(spec.structure)" for c, pol in o.conds)]
     ctx.check(len(pre) >= 1, "C09.R2", "a term-count mismatch raises", f.where, ctx.construct(f, text="term count"),
               "the number of generated terms must equal the number of recorded terms")
